@@ -747,6 +747,11 @@ class GenericPlainRegistry(Generic[QuantityT, UnitT], metaclass=RegistryMeta):
                 f"Parsing {name_or_alias} yield multiple results. Options are: {candidates!r}"
             )
 
+        if prefix and prefix + unit_name in self._units:
+            # A prefixed name that has a definition of its own (milliarcsecond = ... = mas)
+            # reports the symbol of that definition.
+            return self._units[prefix + unit_name].symbol
+
         return self._prefixes[prefix].symbol + self._units[unit_name].symbol
 
     def _get_symbol(self, name: str) -> str:
